@@ -20,7 +20,7 @@ LEVEL = "exploration"
 RULE = ("direct: seeded histories of up to 40 candidate (x,g) updates (convex / indefinite / zero-step / negative-curvature "
         "/ borderline candidates), n 1..12, maxcor 1..10, judged after every candidate against a shadow FIFO memory and a dense "
         "BFGS recursion; runs: every update_lbfgs_matrices call intercepted inside real minimisations and every matrix handed "
-        "to the Cauchy routine. Non-trivial = history (or run) with >=1 rejected candidate and >=1 eviction; distinct = distinct case seeds")
+        "to the Cauchy routine; filter: direct calls of the curvature filter on rewritten histories (newest point kept, order-preserving selection, every retained pair with curvature). Non-trivial = history (or run) with >=1 rejected candidate and >=1 eviction; distinct = distinct case seeds")
 ASSUMPTIONS = [
     "comparison tolerance 1e3*(cond(B)+cond(middle matrix))*eps relative (Frobenius), calibrated: largest observed ratio "
     "err/((cond(B)+cond(M^-1))*eps) is 5.6 on 7000 updates; updates with cond(B) > 1e10 or cond(M^-1) > 1e12 are skipped and counted",
@@ -34,7 +34,7 @@ KMID_MAX = 1e12
 
 def floors(tier):
     return {"updates_judged": 3000, "accepted": 1500, "rejected": 200, "evictions": 300, "dense_compared": 1500,
-            "used_matrices_checked": 300, "restarted_runs": 20, "__nontrivial__": 30}
+            "used_matrices_checked": 300, "restarted_runs": 20, "filter_calls_judged": 1000, "filter_calls_dropping_points": 300, "__nontrivial__": 30}
 
 
 # ---------------------------------------------------------------------------
@@ -221,6 +221,9 @@ def cases(tier, seed):
     nr = 400 if tier == "quick" else 6000
     for i in range(nd):
         yield {"kind": "direct", "seed": subseed("C10d", seed, i) % (2**31)}
+    nf = 200 if tier == "quick" else 6000
+    for i in range(nf):
+        yield {"kind": "filter", "seed": subseed("C10f", seed, i) % (2**31), "count": 30}
     rng = np.random.default_rng(subseed("C10r", seed))
     for i in range(nr):
         ps = gen.rand_spec(rng, RUN_FAMILIES, nmax=10)
@@ -331,11 +334,88 @@ def run_real(spec, out):
                       message=None if tr.result is None else tr.result.message)
 
 
+def judge_filter(out, X, G, Xf, Gf, eps, where, tags):
+    """make_X_and_G_respect_strong_wolfe on a (rewritten) history: the newest point stays, the result is an order-preserving
+    sub-history, every consecutive retained pair has s.y > eps*y.y, and no retained-able... (which points survive is otherwise free)."""
+    out.count("filter_calls_judged")
+    Xf, Gf = list(Xf), list(Gf)
+    if len(Xf) != len(Gf) or len(Xf) < 1:
+        out.violate("filter_output_shape", f"{where}: {len(Xf)} points / {len(Gf)} gradients", **tags)
+        return
+    if not (np.array_equal(Xf[-1], X[-1]) and np.array_equal(Gf[-1], G[-1])):
+        out.violate("filter_dropped_newest_point", f"{where}: the newest stored point is not retained", **tags)
+        return
+    # order-preserving subsequence of the input (matched on both x and g)
+    pos = -1
+    for a, b in zip(Xf, Gf):
+        nxt = None
+        for k in range(pos + 1, len(X)):
+            if np.array_equal(X[k], a) and np.array_equal(G[k], b):
+                nxt = k
+                break
+        if nxt is None:
+            out.violate("filter_output_not_a_subhistory", f"{where}: the filtered history is not an order-preserving selection of the stored points", **tags)
+            return
+        pos = nxt
+    for k in range(len(Xf) - 1):
+        sv, yv = Xf[k + 1] - Xf[k], Gf[k + 1] - Gf[k]
+        sy, yy = float(sv @ yv), float(yv @ yv)
+        if abs(sy - eps * yy) <= 1e-10 * float(np.linalg.norm(sv) * np.linalg.norm(yv)):
+            out.count("skipped_degenerate_curvature")
+            continue
+        if not (sy > eps * yy):
+            out.violate("filter_keeps_pair_without_curvature", f"{where}: retained pair {k} has s.y={sy!r} <= eps*y.y={eps * yy!r}", **tags)
+            return
+    if len(Xf) < len(X):
+        out.count("filter_calls_dropping_points")
+
+
+def run_filter(spec, out):
+    from collections import deque
+
+    from lbfgsb.bfgsmats import make_X_and_G_respect_strong_wolfe
+
+    rng = np.random.default_rng(spec["seed"])
+    ndrop = 0
+    for j in range(spec["count"]):
+        n = int(rng.integers(1, 9))
+        m = int(rng.integers(1, 11))
+        A = gen.rand_spd(rng, n, float(np.exp(rng.uniform(0, np.log(1e3)))))
+        X = [rng.standard_normal(n)]
+        for _ in range(m):
+            X.append(X[-1] + rng.standard_normal(n) * np.exp(rng.uniform(-2, 0.5)))
+        # gradients of a new objective for which part of the history has lost its curvature
+        Q, _ = np.linalg.qr(rng.standard_normal((n, n)))
+        ev = rng.standard_normal(n) * float(np.exp(rng.uniform(-1, 2)))
+        Aind = A + (Q * ev) @ Q.T * float(rng.uniform(0.3, 3.0))
+        Aind = (Aind + Aind.T) / 2
+        G = [Aind @ x for x in X]
+        eps = float(gen.pick(rng, [2.2e-16, 2.2e-16, 1e-3, 1e-1]))
+        Xd, Gd = deque(v.copy() for v in X), deque(v.copy() for v in G)
+        try:
+            Xf, Gf = make_X_and_G_respect_strong_wolfe(Xd, Gd, eps)
+        except Exception as e:
+            out.violate("filter_raised", f"filter n={n} m={m}: {e!r}", source="filter")
+            return
+        c0 = out.counters.get("filter_calls_dropping_points", 0)
+        judge_filter(out, X, G, Xf, Gf, eps, f"filter n={n} points={m + 1} eps={eps:g}", dict(source="filter"))
+        ndrop += out.counters.get("filter_calls_dropping_points", 0) - c0
+        if not (len(Xd) == len(X) and all(np.array_equal(a, b) for a, b in zip(Xd, X))):
+            out.violate("filter_modified_its_input", f"filter n={n}: the input deques were modified", source="filter")
+        if out.violations:
+            return
+    out.nontrivial = ndrop > 0
+    out.key = f"filter/{spec['seed']}"
+    out.sample = dict(spec=spec, calls=spec["count"], dropping=ndrop)
+
+
 def run(spec):
     out = Outcome()
     old = np.seterr(all="ignore")
     try:
-        if spec["kind"] == "direct":
+        if spec["kind"] == "filter":
+            run_filter(spec, out)
+        elif spec["kind"] == "direct":
             run_direct(spec, out)
         else:
             run_real(spec, out)
